@@ -303,6 +303,33 @@ impl ConsumerGroup {
         claimed
     }
     
+    /// Deliver a consumer's own pending entries again (XREADGROUP with an explicit ID):
+    /// the IDs pending for `consumer` that are greater than `after`, in ID order
+    pub fn redeliver_pending(&self, consumer: &str, after: StreamId, count: Option<usize>) -> Vec<StreamId> {
+        let mut pending = self.pending.write().unwrap();
+        let now = SystemTime::now();
+        
+        // Ensure consumer exists
+        self.create_consumer(consumer.to_string());
+        
+        let ids: Vec<StreamId> = pending
+            .get_entries_after(after)
+            .into_iter()
+            .filter(|entry| entry.consumer == consumer)
+            .take(count.unwrap_or(usize::MAX))
+            .map(|entry| entry.id)
+            .collect();
+        
+        for id in &ids {
+            if let Some(entry) = pending.get_entry_mut(id) {
+                entry.delivery_count += 1;
+                entry.last_delivery = now;
+            }
+        }
+        
+        ids
+    }
+    
     /// Get pending entries information
     pub fn get_pending_info(&self) -> PendingInfo {
         let pending = self.pending.read().unwrap();
